@@ -14,6 +14,7 @@ import (
 	"strconv"
 	"strings"
 	"sync"
+	"sync/atomic"
 	"time"
 
 	"github.com/elastic/go-libaudit/v2/aucoalesce"
@@ -154,6 +155,8 @@ type World struct {
 	bounds   []time.Time // bounds[k] = instant separating model time k-1 and k; bounds[0] = start
 	now      int
 	logins   map[int]*loginRec
+	pidLast  map[int]int    // model pid -> whose identity its latest login carried
+	ipOf     map[int]string // login id -> address
 	events   map[int]*aucoalesce.Event
 	last     time.Time
 	tsTag    map[int64]int // L2/L3: kernel time stamp of a record group -> tag
@@ -181,6 +184,8 @@ func NewWorld(seed int64) *World {
 	w.sessName = map[string]string{"": "", "unset": "unset"}
 	w.sessBack = map[string]string{"": "", "unset": "unset"}
 	w.logins = map[int]*loginRec{}
+	w.pidLast = map[int]int{}
+	w.ipOf = map[int]string{}
 	w.events = map[int]*aucoalesce.Event{}
 	w.tsBase = time.Date(2023, 3, 1, 12, 0, 0, 0, time.UTC).Add(time.Duration(w.rng.Intn(1e6)) * time.Second)
 	w.Enc = &Encoder{}
@@ -347,13 +352,28 @@ func (w *World) MakeLogin(id, p int) common.RemoteUserLogin {
 }
 
 func (w *World) makeLogin(id, p int, register bool) common.RemoteUserLogin {
-	cred := fmt.Sprintf("cred-%d-%s", id, w.salt)
+	// "the same person reconnects": every other login of a pid that was used before carries the user, the credential
+	// and the address of that pid's previous login (a new connection: another port) - the two identities differ in the
+	// port only.  Deterministic in (seed, id).
+	who := id
+	if prev, ok := w.pidLast[p]; ok && register && (id+w.pidStep)%2 == 0 {
+		who = prev
+	}
+	ip, ok := w.ipOf[who]
+	if !ok {
+		ip = fmt.Sprintf("10.%d.%d.%d", who/250, who%250, w.rng.Intn(250))
+		w.ipOf[who] = ip
+	}
+	if register {
+		w.pidLast[p] = who
+	}
+	cred := fmt.Sprintf("cred-%d-%s", who, w.salt)
 	evt := auditevent.NewAuditEvent(
 		common.ActionLoginIdentifier,
-		auditevent.EventSource{Type: "IP", Value: fmt.Sprintf("10.%d.%d.%d", id/250, id%250, w.rng.Intn(250)),
+		auditevent.EventSource{Type: "IP", Value: ip,
 			Extra: map[string]any{"port": strconv.Itoa(1024 + id)}},
 		auditevent.OutcomeSucceeded,
-		map[string]string{"loggedAs": fmt.Sprintf("user%d", id), "userID": cred, "pid": strconv.Itoa(w.RealPid(p))},
+		map[string]string{"loggedAs": fmt.Sprintf("user%d", who), "userID": cred, "pid": strconv.Itoa(w.RealPid(p))},
 		"sshd",
 	).WithTarget(map[string]string{"host": "node-" + w.salt, "machine-id": "mid-" + w.salt})
 	evt.LoggedAt = w.stamp()
@@ -566,13 +586,36 @@ func (w *World) Apply(c Call) (err error) {
 func Replay(hist []Call, seed int64, withState bool) (recs []Rec, panicked any) {
 	w := NewWorld(seed)
 	recs = make([]Rec, 0, len(hist))
-	defer func() {
-		if r := recover(); r != nil {
-			panicked = r
-		}
-	}()
+	type res struct {
+		err error
+		p   any
+	}
 	for _, c := range hist {
-		err := w.Apply(c)
+		// every call has a watchdog: a call that does not return (a lock taken twice, a wait for ever) is reported
+		// like a panic instead of hanging the driver
+		ch := make(chan res, 1)
+		c := c
+		go func() {
+			var r res
+			defer func() {
+				if x := recover(); x != nil {
+					r.p = x
+				}
+				ch <- r
+			}()
+			r.err = w.Apply(c)
+		}()
+		var err error
+		select {
+		case r := <-ch:
+			if r.p != nil {
+				return recs, r.p
+			}
+			err = r.err
+		case <-time.After(replayPatience()):
+			replayHangs.Add(1)
+			return recs, fmt.Sprintf("hang: the %s call did not return", c.K)
+		}
 		r := Rec{Call: c, Outs: w.Project(w.Enc.Take()), Err: err != nil, Mut: w.Mutated()}
 		if err != nil {
 			r.ErrS = err.Error()
@@ -583,6 +626,15 @@ func Replay(hist []Call, seed int64, withState bool) (recs []Rec, panicked any) 
 		recs = append(recs, r)
 	}
 	return recs, nil
+}
+
+var replayHangs atomic.Int64
+
+func replayPatience() time.Duration {
+	if replayHangs.Load() > 6 {
+		return 100 * time.Millisecond
+	}
+	return 3 * time.Second
 }
 
 // Prepare builds the concrete arguments of a call now and returns the closure
